@@ -19,42 +19,42 @@ extern "C" {
     fn dlsym(handle: *mut c_void, symbol: *const c_char) -> *mut c_void;
 }
 
-type Handle = *mut c_void;
-type WriteCb = Option<extern "C" fn(*const u8, u32, *mut c_void, *mut u32) -> i32>;
-type FlushCb = Option<extern "C" fn(*mut c_void) -> i32>;
+pub(crate) type Handle = *mut c_void;
+pub(crate) type WriteCb = Option<extern "C" fn(*const u8, u32, *mut c_void, *mut u32) -> i32>;
+pub(crate) type FlushCb = Option<extern "C" fn(*mut c_void) -> i32>;
 #[repr(C)]
-struct FileWriter {
-    write_callback: WriteCb,
-    flush_callback: FlushCb,
-    context: *mut c_void,
+pub(crate) struct FileWriter {
+    pub(crate) write_callback: WriteCb,
+    pub(crate) flush_callback: FlushCb,
+    pub(crate) context: *mut c_void,
 }
-type FileCb = Option<extern "C" fn(*mut c_void, *const u8, usize, *mut FileWriter) -> i32>;
-type ReadCb = Option<extern "C" fn(*mut u8, u32, *mut c_void, *mut u32) -> i32>;
-type SeekCb = Option<extern "C" fn(i64, i32, *mut c_void, *mut u64) -> i32>;
+pub(crate) type FileCb = Option<extern "C" fn(*mut c_void, *const u8, usize, *mut FileWriter) -> i32>;
+pub(crate) type ReadCb = Option<extern "C" fn(*mut u8, u32, *mut c_void, *mut u32) -> i32>;
+pub(crate) type SeekCb = Option<extern "C" fn(i64, i32, *mut c_void, *mut u64) -> i32>;
 #[repr(C)]
-struct ArchiveInfo {
-    version: u32,
-    layers: u8,
+pub(crate) struct ArchiveInfo {
+    pub(crate) version: u32,
+    pub(crate) layers: u8,
 }
 
 /// Function pointers mirroring bindings/C/mla.h (MLAStatus is a #[repr(u64)] enum).
-struct Api {
-    config_default_new: extern "C" fn(*mut Handle) -> u64,
-    config_add_public_keys: extern "C" fn(Handle, *const c_char) -> u64,
-    config_set_compression_level: extern "C" fn(Handle, u32) -> u64,
-    reader_config_new: extern "C" fn(*mut Handle) -> u64,
-    reader_config_add_private_key: extern "C" fn(Handle, *const c_char) -> u64,
-    archive_new: extern "C" fn(*mut Handle, WriteCb, FlushCb, *mut c_void, *mut Handle) -> u64,
-    archive_file_new: extern "C" fn(Handle, *const c_char, *mut Handle) -> u64,
-    archive_file_append: extern "C" fn(Handle, Handle, *const u8, u64) -> u64,
-    archive_flush: extern "C" fn(Handle) -> u64,
-    archive_file_close: extern "C" fn(Handle, *mut Handle) -> u64,
-    archive_close: extern "C" fn(*mut Handle) -> u64,
-    roarchive_extract: extern "C" fn(*mut Handle, ReadCb, SeekCb, FileCb, *mut c_void) -> u64,
-    roarchive_info: extern "C" fn(ReadCb, *mut c_void, *mut ArchiveInfo) -> u64,
+pub(crate) struct Api {
+    pub(crate) config_default_new: extern "C" fn(*mut Handle) -> u64,
+    pub(crate) config_add_public_keys: extern "C" fn(Handle, *const c_char) -> u64,
+    pub(crate) config_set_compression_level: extern "C" fn(Handle, u32) -> u64,
+    pub(crate) reader_config_new: extern "C" fn(*mut Handle) -> u64,
+    pub(crate) reader_config_add_private_key: extern "C" fn(Handle, *const c_char) -> u64,
+    pub(crate) archive_new: extern "C" fn(*mut Handle, WriteCb, FlushCb, *mut c_void, *mut Handle) -> u64,
+    pub(crate) archive_file_new: extern "C" fn(Handle, *const c_char, *mut Handle) -> u64,
+    pub(crate) archive_file_append: extern "C" fn(Handle, Handle, *const u8, u64) -> u64,
+    pub(crate) archive_flush: extern "C" fn(Handle) -> u64,
+    pub(crate) archive_file_close: extern "C" fn(Handle, *mut Handle) -> u64,
+    pub(crate) archive_close: extern "C" fn(*mut Handle) -> u64,
+    pub(crate) roarchive_extract: extern "C" fn(*mut Handle, ReadCb, SeekCb, FileCb, *mut c_void) -> u64,
+    pub(crate) roarchive_info: extern "C" fn(ReadCb, *mut c_void, *mut ArchiveInfo) -> u64,
 }
 
-fn load_api() -> Result<Api, String> {
+pub(crate) fn load_api() -> Result<Api, String> {
     let dir = std::env::var("VERIF_BINDIR").map_err(|_| "VERIF_BINDIR not set".to_string())?;
     let path = CString::new(format!("{dir}/libmla.so")).unwrap();
     let h = unsafe { dlopen(path.as_ptr(), 2 /* RTLD_NOW */) };
@@ -306,7 +306,7 @@ fn pub_text(k: u64) -> Option<Vec<u8>> {
         _ => Some(sample("test_25519_pub_many.pem")),
     }
 }
-fn priv_text(k: u64) -> Option<Vec<u8>> {
+pub(crate) fn priv_text(k: u64) -> Option<Vec<u8>> {
     match k {
         0 => None,
         1 => Some(sample("test_x25519.pem")),
